@@ -837,6 +837,18 @@ pub fn run_once_until(ep: &Episode, env: &Env, dirbase: &'static str, only_updat
         }
     }));
     let images = (0..w.maps.len()).map(|m| w.images(m)).collect();
+    // logical end state of every map as a shape signature (number of entries and the multiset
+    // of (key length, slot class of the value)): the distinct-state measure of the checks that
+    // never decode an image
+    for mr in w.maps.iter() {
+        let mut h = 0xcbf2_9ce4_8422_2325u64 ^ (mr.model.len() as u64);
+        let mut shape: Vec<(usize, u32)> = mr.model.iter().map(|(k, (_, v))| (k.len(), decoder::roundup(v.len() as u32 + 3))).collect();
+        shape.sort_unstable();
+        for (a, b) in shape {
+            h = (h ^ (a as u64 * 131 + b as u64)).wrapping_mul(0x100_0000_01b3);
+        }
+        w.stats.state_sigs.insert(h | 1 << 63);
+    }
     let mut stats = std::mem::take(&mut w.stats);
     kernel::with(|k| {
         for i in 0..kernel::NOPS {
